@@ -12,7 +12,8 @@ from ..consteval import try_fold
 from ..dataflow import defs
 from ..lattice import ir_family, reaching_classes
 from ..model import call_name, own_nodes, unparse
-from ..pathcond import path_info, truth_table
+from ..model import returns_text
+from ..pathcond import assigned_alternatives, path_info, truth_table
 
 PROP = 'C16'
 JH = 'stone.backends.js_helpers'
@@ -146,8 +147,12 @@ def run(pm, ctx):
     if len(opt) == 1:
         keys, tab = truth_table(opt[0], k)
         ok = keys == ['default', 'nullable'] and all(v == (a or b) for (a, b), v in tab.items())
-    fn = [unparse(v) for v in d.all_values('field_name')]
-    ctx.check('C16-R2', ok and fn == ["'%s?' % field.name if optional else field.name"] and
+    pits = path_info(ts.node)
+    fn = sorted((unparse(leaf), tuple((unparse(e), p) for e, p in pits.at(leaf)
+                                      if unparse(e) == 'optional'))
+                for leaf, _st in assigned_alternatives(ts.node, 'field_name'))
+    ctx.check('C16-R2', ok and fn == [("'%s?' % field.name", (('optional', True),)),
+                                      ('field.name', (('optional', False),))] and
               [unparse(v) for kind, v, s in d.values.get('field_type', [])] ==
               ['unwrap_nullable(field.data_type)'],
               'TypeScript: `?` exactly when the field is nullable or has a default', ts.loc,
@@ -163,9 +168,13 @@ def run(pm, ctx):
     js = pm.func(JT + '._generate_struct')
     dj = defs(js.node)
     src = [(kind, unparse(v)) for kind, v, s in dj.values.get('nullable', [])]
-    fnj = [unparse(v) for v in dj.all_values('field_name')]
+    pijs = path_info(js.node)
+    fnj = sorted((unparse(leaf), tuple((unparse(e), p) for e, p in pijs.at(leaf)
+                                       if unparse(e) == 'nullable'))
+                 for leaf, _st in assigned_alternatives(js.node, 'field_name'))
     ctx.check('C16-R2', src == [('assign-unpack:1', 'unwrap(field.data_type)')] and
-              fnj == ["'[' + field.name + ']' if nullable else field.name"],
+              fnj == [("'[' + field.name + ']'", (('nullable', True),)),
+                      ('field.name', (('nullable', False),))],
               'JSDoc: `[name]` exactly when the type unwraps, through aliases, to a nullable',
               js.loc, msg='JSDoc optional marker is derived from %s / %s' % (src, fnj),
               key='C16-R2|%s|optional' % js.qualname)
@@ -276,8 +285,7 @@ def run(pm, ctx):
               'js_types visits every data type of every namespace, unfiltered', jg.loc,
               msg='js_types iteration changed: %s' % its, key='C16-R4|%s' % jg.qualname)
     gdt = pm.func(TH + '.get_data_types_for_namespace')
-    ctx.check('C16-R4', len(gdt.node.body) == 1 and unparse(gdt.node.body[0]) ==
-              'return namespace.data_types + namespace.aliases',
+    ctx.check('C16-R4', returns_text(gdt.node) == 'namespace.data_types + namespace.aliases',
               'tsd: the declarations of a namespace are its data types and its aliases', gdt.loc,
               msg='get_data_types_for_namespace changed', key='C16-R4|%s' % gdt.qualname)
     tg = pm.func(TT + '._generate_types')
